@@ -633,6 +633,13 @@ char *macros_expand_params(
     if (ch == '\t') { ch = ' '; }
     if (ch == '\r') { continue; }
 
+    // Keep room for an escaped pair and the terminating 0.
+    if (ptr >= (int)sizeof(params) - 3)
+    {
+      print_error(asm_context, "Macro parameters are too long");
+      return nullptr;
+    }
+
     // skip whitespace immediately after opening parenthesis or a comma
     if ((ch == ' ' || ch == '\t') && (ptr == 0 || params[ptr - 1] == 0)) { continue; }
 
@@ -660,6 +667,12 @@ char *macros_expand_params(
 
     if (ch == ',' && !in_string && !in_ticks && open_parens == 0)
     {
+      if (count >= 254)
+      {
+        print_error(asm_context, "Too many macro parameters");
+        return nullptr;
+      }
+
       params[ptr++] = 0;
       params_ptr[++count] = ptr;
       continue;
@@ -699,19 +712,28 @@ for (int n = 0; n < count; n++)
     {
       define++;
 
-      strcpy(asm_context->def_param_stack_data + ptr, params + params_ptr[((int)*define) - 1]);
+      const char *param = params + params_ptr[((int)*define) - 1];
+
+      // Leave room for the terminating 0 that is added after the loop.
+      if (ptr + strlen(param) >= PARAM_STACK_LEN - 1)
+      {
+        print_error(asm_context, "Macro expansion is too long");
+        return nullptr;
+      }
+
+      strcpy(asm_context->def_param_stack_data + ptr, param);
 
       while (*(asm_context->def_param_stack_data + ptr) != 0) { ptr++; }
     }
     else
     {
-      asm_context->def_param_stack_data[ptr++] = *define;
-    }
+      if (ptr >= PARAM_STACK_LEN - 1)
+      {
+        print_error(asm_context, "Macro expansion is too long");
+        return nullptr;
+      }
 
-    if (ptr >= PARAM_STACK_LEN)
-    {
-      print_error_internal(nullptr, __FILE__, __LINE__);
-      exit(1);
+      asm_context->def_param_stack_data[ptr++] = *define;
     }
 
     define++;
